@@ -6,7 +6,7 @@ from vuniv import words
 DBS = ("base", "forget", "forest", "forest_norev")
 
 
-def rand_class(rng, max_alpha=3, max_prefix=3, max_stats=3, bytes_p=0.15, atoms=False):
+def rand_class(rng, max_alpha=3, max_prefix=3, max_stats=3, bytes_p=0.15, atoms=False, pairs=0.12):
     k = rng.choice([1, 2, 2, 2, 2, 3][: 1 + 2 * max_alpha] or [2])
     k = min(k, max_alpha)
     alphabet = "abc"[:k]
@@ -31,12 +31,22 @@ def rand_class(rng, max_alpha=3, max_prefix=3, max_stats=3, bytes_p=0.15, atoms=
     plen = rng.choice((0, 0, 0, 0, 1, 1, 2, 3))
     plen = min(plen, max_prefix)
     prefix = "".join(rng.choice(alphabet) for _ in range(plen))
-    return {
+    d = {
         "prefix": prefix, "patterns": sorted(pats), "alphabet": alphabet,
         "just_prefix": bool(atoms and rng.random() < 0.2),
         "stats": stats, "bytes": rng.random() < bytes_p,
         "proper": bool(rng.random() < 0.1),
+        "right": None,
     }
+    if pairs and rng.random() < pairs:
+        # a pair class [A] | [B]: a product of two non-trivial factors
+        rp = set()
+        for _ in range(rng.choice((0, 1, 1, 2))):
+            rp.add("".join(rng.choice(alphabet) for _ in range(rng.choice((1, 2, 2, 3)))))
+        d["right"] = {"prefix": "".join(rng.choice(alphabet) for _ in range(rng.choice((0, 0, 1)))),
+                      "patterns": sorted(rp), "alphabet": alphabet, "just_prefix": False,
+                      "stats": stats, "proper": bool(rng.random() < 0.15), "right": None}
+    return d
 
 
 def rand_pack(rng, cls=None, allow_iterative=True, allow_prefix_ver=True, allow_one_way=False,
@@ -60,7 +70,7 @@ def rand_pack(rng, cls=None, allow_iterative=True, allow_prefix_ver=True, allow_
     o["inferral"] = inf
     layouts = ["initial", "initial", "sets"] + (["same"] if allow_same else [])
     o["layout"] = rng.choice(layouts)
-    o["factory"] = rng.choice((None, None, None, None, 0, 1, 2, 3))
+    o["factory"] = rng.choice((None, None, None, None, None, 0, 1, 2, 3, 4))
     has_stats = bool(cls and cls["stats"])
     vers = ["stat", "stat", "stat"]
     if not has_stats:
@@ -112,7 +122,7 @@ def build_searcher(case):
 
 
 def rand_search_case(rng, **kw):
-    cls = rand_class(rng, **{k: v for k, v in kw.items() if k in ("max_alpha", "max_prefix", "max_stats", "bytes_p")})
+    cls = rand_class(rng, **{k: v for k, v in kw.items() if k in ("max_alpha", "max_prefix", "max_stats", "bytes_p", "pairs")})
     pack = rand_pack(rng, cls, **{k: v for k, v in kw.items()
                                   if k in ("allow_iterative", "allow_prefix_ver", "allow_one_way", "allow_same")})
     return {"cls": cls, "pack": pack, "db": rand_db(rng),
